@@ -271,7 +271,31 @@ impl Display for Expr {
             if let Some(ref left) = self.left {
                 fmt.write_str(&left.to_string())?;
             }
+            if let Some(ref args) = self.args {
+                for arg in args {
+                    fmt.write_str(", ")?;
+                    fmt.write_str(&arg.to_string())?;
+                }
+            }
             fmt.write_char(')')?;
+        } else if let Some(ref arithmetic_op) = self.arithmetic_op {
+            fmt.write_char('(')?;
+            if let Some(ref left) = self.left {
+                fmt.write_str(&left.to_string())?;
+            }
+            fmt.write_str(match arithmetic_op {
+                ArithmeticOp::Add => " + ",
+                ArithmeticOp::Subtract => " - ",
+                ArithmeticOp::Multiply => " * ",
+                ArithmeticOp::Divide => " / ",
+                ArithmeticOp::Modulo => " % ",
+            })?;
+            if let Some(ref right) = self.right {
+                fmt.write_str(&right.to_string())?;
+            }
+            fmt.write_char(')')?;
+
+            return Ok(());
         } else if let Some(ref left) = self.left {
             fmt.write_str(&left.to_string())?;
         }
